@@ -10,7 +10,12 @@ RULE = ("same scenario run as C05 (families 1-20 + random). Reply bodies: add_ap
         "row comes from a verifying reply logged in that window and strictly extends expiry and slots of what was stored; registertower "
         "stores iff the reply verifies and strictly extends, and answers accordingly; a wrong-key acknowledgement => proof row + status "
         "misbehaving at the next settle point, and no request reaches that tower in any later window; the plugin answers listtowers after "
-        "every step and no RPC / hook call times out")
+        "every step and no RPC / hook call times out; a stored misbehaviour proof is backed by the offending receipt: the receipt stored for "
+        "(tower, proof.locator) recovers to proof.recovered_id, a key other than the tower's (family 30: the plugin is killed between the two "
+        "writes of a pending -> accepted move - the database sampler pulls the trigger while it holds its read transaction -, the tower then "
+        "signs with another key and the restarted plugin sends the appointment again). Non-JSON bodies include an HTML error page of "
+        "three-byte characters, longer than 256 bytes, in three alignments (every byte offset is inside a character in two of them), on "
+        "register and add_appointment, notification and retry path")
 ASSUME = [
     "signature validity is decided by teos_common (harness side) on the stored strings: class 1 verifies under the tower id, 2 recovers to "
     "the other key, 3 undecodable; ECDSA unforgeability is assumed, not proved",
